@@ -59,8 +59,24 @@ def registry(chk: Check, repo: Repo) -> None:
     chk.ob("registration-lives-until-it-is-unregistered", f"{tq.module.relpath}:{tq.node.lineno}:TelegramQueue.Callback", not eqs, f"TelegramQueue.Callback defines {eqs or 'no'} equality of its own: list.remove() finds the registration object itself", key="registry|identity")
 
 
+def callbacks_run_whatever_the_devices_do(chk: Check, repo: Repo) -> None:
+    """A callback subscribed to a telegram sees it once it is processed: in the two processing functions of the queue
+    the call of the callbacks is not skipped when the devices' processing raises - every path that leaves
+    `devices.process(...)`, also its exceptional ones, passes `_run_telegram_received_cbs(...)` (incoming telegrams run
+    the callbacks first; outgoing ones after the send, around the devices)."""
+    for q in ("TelegramQueue.process_telegram_outgoing", "TelegramQueue.process_telegram_incoming"):
+        f = repo.func(TQ, q)
+        chk.unit(f)
+        cfg = CFG(f.node)
+        dev = [n for n in cfg.nodes if n.ast is not None and n.kind == "stmt" and any(call_name(c) == "self.xknx.devices.process" for c in calls(n.ast))]
+        cbs = [n for n in cfg.nodes if n.ast is not None and n.kind == "stmt" and any(call_name(c) == "self._run_telegram_received_cbs" for c in calls(n.ast))]
+        ok = len(dev) == 1 and bool(cbs) and (all(cfg.dominates(c.id, dev[0].id) for c in cbs[:1]) or cfg.all_paths_hit(dev[0].id, [c.id for c in cbs], ends=[cfg.exit, cfg.raise_exit]))
+        chk.ob("callbacks-run-whatever-the-devices-do", f.site(), ok, f"{q}: the callbacks run before the devices or on every way out of devices.process()" if ok else f"{q}: an exception out of devices.process() skips _run_telegram_received_cbs - a callback subscribed to this telegram never sees it although it was sent", key=f"callbacks-after-devices|{q}")
+
+
 def run(chk: Check, repo: Repo) -> None:
     registry(chk, repo)
+    callbacks_run_whatever_the_devices_do(chk, repo)
     from .common_rules import dispatch_iterates_a_snapshot
     dispatch_iterates_a_snapshot(chk, repo, repo.func("xknx.core.telegram_queue", "TelegramQueue._run_telegram_received_cbs"), "telegram_received_cbs", "the telegram callbacks", "snapshot|telegram-callbacks")
     fi = repo.func(TQ, "TelegramQueue.Callback.is_within_filter")
